@@ -18,7 +18,8 @@ Monitors on the IMPLEMENTATION ALONE (a hit is a violation with the replayable p
       header hash) is identical in all configurations;
   M4  every single-field mutation of the header / payset is rejected;
   M5  after the block is added to A (validated delta) and to B (own evaluation) both ledgers hold the same state;
-  M6  header arithmetic: payset size, txn counter and fees collected equal what the accepted groups imply; payout ≤ bound.
+  M6  header arithmetic: payset size, txn counter and fees collected equal what the accepted groups imply; the producer's
+      payout equals min(pct·fees/100 + bonus, fee sink balance − min balance) and the finished block's payout is ≤ it.
 Correspondence with the model (driver `c20`): rewards state + pool withdrawal at block start, every group, the derived header
 fields, the validated state delta, the rejection class of the modelled mutations.  A model mismatch without a monitor hit is
 reported as a broken tie (no-failing-input-found)."""
@@ -77,6 +78,7 @@ def monitor(case, dist=None):
                 cnt("replay:diverged-block-start")   # (replay of a recorded case on a different tree)
             p = kv(op)
             blk = {"ctr0": int(p.get("ctr", 0)), "sink": p.get("sink", "7"), "payouts": p.get("payouts") == "1", "n": 0, "fees": 0,
+                   "pct": int(p.get("pct", 0)), "bonus": int(p.get("bonus", 0)), "mb": int(p.get("reqs", "100000").split(",")[0]), "sinkacct": p.get("A" + p.get("sink", "7")),
                    "x": {}, "ok": 0, "gen": None, "hdr": None, "level0": int(p.get("prs", "0").split(",")[0]), "level": int(p.get("level", 0))}
             cnt("block:level-" + ("moves" if blk["level"] != blk["level0"] else "constant"))
         elif k == "group":
@@ -84,6 +86,7 @@ def monitor(case, dist=None):
                 return idx, "unparseable group result " + out[:120]
             cls = out.split(" | ", 1)[0]
             cnt("group:" + ("accepted" if cls == "ok" else "rejected"))
+            blk["sinkacct"] = kv(out.split(" | ", 1)[1]).get("A" + blk["sink"], blk["sinkacct"])
             if cls == "ok":
                 g = parse_group(op)
                 blk["n"] += len(g)
@@ -114,6 +117,13 @@ def monitor(case, dist=None):
                 return idx, "M6: FeesCollected %s ≠ %d (fees of the accepted transactions)" % (h["fees"], want)
             if int(h["payout"]) > int(h["maxpayout"]):
                 return idx, "M6: ProposerPayout %s above the bound %s the producer computed" % (h["payout"], h["maxpayout"])
+            if blk["sinkacct"] and "ERR" not in blk["sinkacct"]:
+                sa = blk["sinkacct"].split(",")
+                avail = max(0, int(sa[1]) - blk["mb"] * (1 + int(sa[5])))
+                bound = min(int(h["fees"]) * blk["pct"] // 100 + blk["bonus"], avail) if blk["payouts"] else 0
+                if int(h["maxpayout"]) != bound:
+                    return idx, ("M6: the payout the producer wrote (%s) is not min(%d%% of FeesCollected %s + bonus %d, the fee sink's available balance %d) = %d — the bound validation re-derives"
+                                 % (h["maxpayout"], blk["pct"], h["fees"], blk["bonus"], avail, bound))
             if int(h["rs"].split(",")[0]) != blk["level"]:
                 return idx, "M6: the header's RewardsLevel %s differs from the level the evaluator ran with (%d)" % (h["rs"].split(",")[0], blk["level"])
         elif k == "validate":
@@ -208,7 +218,7 @@ def run(ctx, replay_ops=None):
                        "(protocols v39 (no payouts), v40, v41, current, future and a test protocol with a 3-round rewards refresh and 3-round absentee challenges; 6 accounts with boundary balances, online accounts "
                        "whose keys expire inside the history, incentive-eligible accounts, fee sink, rewards pool sized so that the level moves) followed by 4–8 blocks; a block = a pool of 0–17 random valid / invalid "
                        "signed groups (LedgerCore generator: payments, closes, keyreg, asset life cycles, fee pooling, dead / duplicate / malformed / overspending members) assembled as AssembleBlock does, finished "
-                       "for a random proposer (eligible or not, in / not in the participating set), validated in ≥ 3 of 11 configurations, mutated in a sample of ≤ 30 single header / payset fields, then added to both "
+                       "for a random proposer (eligible or not, in / not in the participating set), validated in ≥ 3 of 12 configurations, mutated in a sample of ≤ 30 single header / payset fields, then added to both "
                        "ledgers; evaluations = block evaluations (validate + mutate ops); distinct = distinct (block commitment, configuration / mutation) pairs of non-empty blocks")
     rc, out = ctx.go_test(PKG, TEST, env=env, timeout=5400)
     opsf, implf = os.path.join(ctx.work, NAME + ".ops"), os.path.join(ctx.work, NAME + ".impl")
@@ -287,6 +297,8 @@ def run(ctx, replay_ops=None):
         hit = c["start"] in hit_cases
         crashed = a.startswith(("PANIC", "start-error", "gen-error", "commit-error")) or "ERR" in a or "UNMODELLED" in a
         x, y = first_diff(a, m)
+        if o.startswith("validate") and a.count(" | ") >= 1 and m.count(" | ") >= 1:
+            x, y = first_diff(a.split(" | ")[1], m.split(" | ")[1])
         ctx.violation("real evaluator differs from Model.BlockEval at op %d of the case (%s): impl `%s` vs model `%s`" % (i - c["start"], o.split(" ", 1)[0], x, y),
                       {"kind": "correspondence", "driver": "model", "ops": prefix(c, i - c["start"]), "index": i, "impl_out": a[:2000], "model_out": m[:2000], "harness": HZ},
                       found_input=hit or crashed)
